@@ -32,6 +32,7 @@ type Access struct {
 	Alias    bool // the access goes through a local that was assigned the (map-typed) field: m := this.m ... m[k]
 	Elem     bool // a write to an element (this.m[k] = v) rather than a replacement of the field
 	NodeCall bool // ... touched by a method of the node called here
+	Shared   bool // made while the lock is held in shared (read) mode
 	Node     bool // a field of one of the collection's nodes (list entity, hash entry), reached through any expression
 }
 
@@ -41,6 +42,7 @@ type CallSite struct {
 	Held   int
 	Pos    token.Pos
 	Peer   string // non-empty: the call is made on this other instance of the receiver's type
+	Shared bool   // made while the lock is held in shared (read) mode
 }
 
 // FuncLocks is the result for one method.
@@ -280,6 +282,7 @@ func AnalyzeWith(p *core.Program, t *types.Named, pkgLock types.Object) *TypeLoc
 type state struct {
 	held     int
 	deferred bool
+	shared   bool // the lock held was taken with RLock: other readers run beside this one
 }
 
 func join(a, b state) state {
@@ -288,6 +291,7 @@ func join(a, b state) state {
 		out.held = Top
 	}
 	out.deferred = a.deferred || b.deferred
+	out.shared = a.shared || b.shared
 	return out
 }
 
@@ -493,12 +497,14 @@ func (a *analyzer) analyzeFunc(fi *core.FuncInfo, entryHeld bool) *FuncLocks {
 								r.problems = append(r.problems, fmt.Sprintf("%s: Lock() while the same mutex is already held on this path (self-deadlock)", a.p.Pos(v.Pos())))
 							}
 							st.held = Yes
+							st.shared = op == "RLock"
 							r.locks = append(r.locks, v.Pos())
 						case "Unlock", "RUnlock":
 							if st.held == No {
 								r.problems = append(r.problems, fmt.Sprintf("%s: Unlock() of a mutex not held on this path", a.p.Pos(v.Pos())))
 							}
 							st.held = No
+							st.shared = false
 						}
 						return false
 					}
@@ -561,7 +567,7 @@ func (a *analyzer) analyzeFunc(fi *core.FuncInfo, entryHeld bool) *FuncLocks {
 						}
 						if id, ok := ast.Unparen(sel.X).(*ast.Ident); ok && info.ObjectOf(id) == recv {
 							if fn, ok := info.Uses[sel.Sel].(*types.Func); ok {
-								r.calls = append(r.calls, CallSite{Callee: fn, Held: st.held, Pos: v.Pos()})
+								r.calls = append(r.calls, CallSite{Callee: fn, Held: st.held, Pos: v.Pos(), Shared: st.shared && st.held == Yes})
 							} else if fv, ok := info.Uses[sel.Sel].(*types.Var); ok && fv.IsField() {
 								if _, isFn := fv.Type().Underlying().(*types.Signature); isFn {
 									r.fcalls = append(r.fcalls, FieldCall{Field: fv.Name(), Held: st.held, Pos: v.Pos()})
@@ -572,7 +578,7 @@ func (a *analyzer) analyzeFunc(fi *core.FuncInfo, entryHeld bool) *FuncLocks {
 				case *ast.SelectorExpr:
 					if id, ok := ast.Unparen(v.X).(*ast.Ident); ok && info.ObjectOf(id) == recv {
 						if fv, ok := info.Uses[v.Sel].(*types.Var); ok && fv.IsField() && fv.Name() != a.tl.LockField {
-							r.accesses = append(r.accesses, Access{Field: fv.Name(), Write: writes[v], Held: st.held, Pos: v.Pos(), Elem: elemWrites[v]})
+							r.accesses = append(r.accesses, Access{Field: fv.Name(), Write: writes[v], Held: st.held, Pos: v.Pos(), Elem: elemWrites[v], Shared: st.shared && st.held == Yes})
 						}
 					} else if fv, ok := info.Uses[v.Sel].(*types.Var); ok && fv.IsField() && len(a.nodes) > 0 {
 						// a field of one of the collection's nodes (x.Value, e.next): the nodes are shared
@@ -583,7 +589,7 @@ func (a *analyzer) analyzeFunc(fi *core.FuncInfo, entryHeld bool) *FuncLocks {
 								xt = pt.Elem()
 							}
 							if n, ok := xt.(*types.Named); ok && a.nodes[n.Obj()] {
-								r.accesses = append(r.accesses, Access{Field: "node:" + n.Obj().Name() + "." + fv.Name(), Write: writes[v], Held: st.held, Pos: v.Pos(), Node: true})
+								r.accesses = append(r.accesses, Access{Field: "node:" + n.Obj().Name() + "." + fv.Name(), Write: writes[v], Held: st.held, Pos: v.Pos(), Node: true, Shared: st.shared && st.held == Yes})
 							}
 						}
 					}
